@@ -240,6 +240,10 @@ func runVariant(sc *bw.Scenario, book *simkit.TapeBook, vi int, w *world, pkgAdd
 				func() {
 					defer func() {
 						if x := recover(); x != nil {
+							if _, ok := x.(stepCapPanic); ok {
+								rec.Panic = "step-cap"
+								return
+							}
 							rec.Refused = true
 							rec.Panic = fmt.Sprint(x)
 						}
@@ -309,6 +313,11 @@ func runVariant(sc *bw.Scenario, book *simkit.TapeBook, vi int, w *world, pkgAdd
 	out.Inter = r.sched.InterleavingHash()
 	for k, v := range r.faultsFired {
 		out.Fault("peer/"+k, v)
+	}
+	if r.capHit {
+		res.deadlock = true
+		out.Violate("C14", "build-does-not-terminate", "step-cap", fmt.Sprintf("variant %d: more than %d simulator steps (peer calls, trace events, lock hand-overs) without the Add calls returning", vi, buildStepCap))
+		out.Violate("C19", "build-does-not-terminate", "step-cap", fmt.Sprintf("variant %d: more than %d simulator steps without the Add calls returning", vi, buildStepCap))
 	}
 	if res.deadlock {
 		return res
